@@ -246,7 +246,12 @@ fn base_document(rng: &mut Rng) -> String {
         d.push_str(&format!("  <key id=\"{}\" for=\"edge\" attr.name=\"weight\" attr.type=\"double\"/>\n", wkey));
     }
     if rng.chance(30) { d.push_str("  <key id=\"d1\" for=\"node\" attr.name=\"color\" attr.type=\"string\"/>\n"); }
-    d.push_str(&format!("  <graph id=\"G\" edgedefault=\"{}\">\n", if directed { "directed" } else { "undirected" }));
+    // GraphML's optional parse hints (and any other numeric-looking attribute) with ordinary and with extreme values
+    let hints = if rng.chance(25) {
+        let v = |rng: &mut Rng| *rng.pick(&["0", "3", "18446744073709551615", "9223372036854775808", "4611686018427387904", "-1", "99999999999999999999999", "1.5", ""]);
+        format!(" parse.nodes=\"{}\" parse.edges=\"{}\" parse.order=\"nodesfirst\" parse.maxindegree=\"{}\"", v(rng), v(rng), v(rng))
+    } else { String::new() };
+    d.push_str(&format!("  <graph id=\"G\" edgedefault=\"{}\"{}>\n", if directed { "directed" } else { "undirected" }, hints));
     let n = rng.range(0, 5);
     // names with multi-byte characters, repeated a random number of times so that byte offsets (and any
     // slicing of the document by byte position) fall inside characters in some cases
